@@ -182,6 +182,8 @@ func cmdVerify(args []string) {
 	secs := fs.Int("t", 10, "solver timeout")
 	keep := fs.String("keep", "", "directory to keep queries in")
 	verbose := fs.Bool("v", false, "print every obligation")
+	covers := fs.Bool("covers", false, "also discharge the thorough-tier cover probes")
+	structural := fs.Bool("structural", false, "also generate the structural obligations of every property")
 	fs.Parse(args)
 	e, err := loadEngine(*repo, filepath.Join(*verif, "theory"))
 	if err != nil {
@@ -199,8 +201,32 @@ func cmdVerify(args []string) {
 		os.MkdirAll(dir, 0755)
 	}
 	var all []*oblig
+	if *structural {
+		seen := map[string]bool{}
+		sr := &fnResult{name: "structural"}
+		for i := 1; i <= 20; i++ {
+			for _, o := range e.structuralObligations(fmt.Sprintf("C%02d", i)) {
+				if !seen[o.name] {
+					seen[o.name] = true
+					sr.obligs = append(sr.obligs, o)
+				}
+			}
+		}
+		results = append(results, sr)
+	}
 	for _, r := range results {
-		all = append(all, r.obligs...)
+		if r.name != "structural" {
+			if !*covers {
+				var keep []*oblig
+				for _, o := range r.obligs {
+					if !o.thoroughOnly {
+						keep = append(keep, o)
+					}
+				}
+				r.obligs = keep
+			}
+			all = append(all, r.obligs...)
+		}
 	}
 	tg := time.Since(t0)
 	discharge(all, dischargeOpts{quickSecs: *secs, fullSecs: *secs, workdir: dir, jobs: runtime.NumCPU()})
@@ -229,6 +255,9 @@ func cmdVerify(args []string) {
 	}
 	fmt.Printf("load %.1fs, generate %.1fs, total %.1fs; failed=%d\n", e.loadSecs, tg.Seconds(), time.Since(t0).Seconds(), bad)
 	if bad > 0 {
+		if *keep == "" {
+			os.RemoveAll(dir)
+		}
 		os.Exit(1)
 	}
 }
